@@ -6,6 +6,7 @@ use serde_json::{json, Value};
 use std::io::{self, BufRead, Write};
 
 mod c12;
+mod c17;
 
 fn main() {
     let args: Vec<String> = std::env::args().collect();
@@ -16,6 +17,7 @@ fn main() {
     let sub = args[1].as_str();
     let f: fn(&Value) -> Value = match sub {
         "c12" => c12::run,
+        "c17" => c17::run,
         _ => {
             eprintln!("unknown subcommand {sub}");
             std::process::exit(2);
